@@ -169,7 +169,7 @@ func (n *rNode) brief() string {
 
 type reentrantLock struct{ id uintptr }
 
-var c20Gen = TreeGen{MaxDepth: 6, MaxWidth: 3, MinWidth: 0, NilLeaves: 6, Conds: 20, CondStackExpr: 60, CondCondExpr: 5, Aliases: 15, StackProb: 70, Mutex: 35}
+var c20Gen = TreeGen{MaxDepth: 6, MaxWidth: 3, MinWidth: 0, NilLeaves: 6, Conds: 20, CondStackExpr: 60, CondCondExpr: 5, Aliases: 15, StackProb: 70, Mutex: 35, IdxOpts: true}
 
 func c20Tier(tier string) (L, exh, random int) {
 	cnt := func(L int) int {
@@ -210,10 +210,10 @@ func c20Chain(h int, r *core.Rng) *TNode {
 	for i := 0; i < L; i++ {
 		link := h % 10
 		h /= 10
-		cur = &TNode{T: "stack", Kind: Kinds[link%5], Paren: link >= 5, Kids: []*TNode{cur}, Mutex: r.Chance(1, 3)}
+		cur = &TNode{T: "stack", Kind: Kinds[link%5], Paren: link >= 5, Kids: []*TNode{cur}, Mutex: r.Chance(1, 3), Neg: r.Chance(1, 4), Fwd: r.Chance(1, 4)}
 	}
 	// the outermost link is the root's only element; the root adds siblings so slot arithmetic is exercised
-	root := &TNode{T: "stack", Kind: "AND", Mutex: r.Chance(1, 3), Kids: []*TNode{{T: "leaf", Leaf: &LeafDesc{Tag: "str", S: "first"}}, cur, {T: "leaf", Leaf: &LeafDesc{Tag: "str", S: "last"}}}}
+	root := &TNode{T: "stack", Kind: "AND", Mutex: r.Chance(1, 3), Neg: r.Chance(1, 4), Fwd: r.Chance(1, 3), Kids: []*TNode{{T: "leaf", Leaf: &LeafDesc{Tag: "str", S: "first"}}, cur, {T: "leaf", Leaf: &LeafDesc{Tag: "str", S: "last"}}}}
 	if r.Bool() {
 		root.Kids = root.Kids[1:]
 	}
@@ -361,7 +361,7 @@ func init() {
 		},
 		Run: c20Run,
 		Rule: "exhaustive: every chain of 1..4 (quick) / 1..5 (thorough) single-child links over {AND,OR,NOT,LIST,BASIC} x {plain,parenthetical} ending in a leaf, a Condition or a 2-element stack, placed between siblings in a root; " +
-			"random: trees of depth <= 6, width <= 3 biased to single-child chains, all kinds, random parenthetical flags, empty stacks, nil slots, Conditions holding stacks, alias forms, the mutex enabled on a third of the nodes. Reveal is applied twice. " +
+			"random: trees of depth <= 6, width <= 3 biased to single-child chains, all kinds, random parenthetical flags, empty stacks, nil slots, Conditions holding stacks, alias forms, negative/forward index options and the mutex enabled on a third of the nodes (Reveal's own scan goes through the index translation). Reveal is applied twice. " +
 			"Oracle per application, on live descriptions carrying node identity (VerifDump): depth-first sequence of leaves and Condition keyword/operator identical; before and after reduce to the same fully-unwrapped normal form; depth does not grow; every parenthetical or NOT node and the receiver survive; no panic; " +
 			"the lock-point hook reports a lock.want on a mutex the goroutine already holds (certain deadlock) and leaked locks. non-trivial = Reveal changed the structure AND the tree contains a single-child wrapper that must not be removed; distinct = tree description.",
 		Assumptions: []string{"trees, not DAGs: no Stack instance occurs twice in one structure", "Reveal may remove any subset of the removable wrappers (the statement fixes which removals are legal, not how many are performed)"},
